@@ -3,5 +3,10 @@ import AstGrepVerif.Model.MetaVar
 import AstGrepVerif.Model.Notation
 import AstGrepVerif.Model.Indent
 import AstGrepVerif.Model.Template
+import AstGrepVerif.Model.Tree
+import AstGrepVerif.Model.Env
+import AstGrepVerif.Model.Match
+import AstGrepVerif.Model.Pattern
+import AstGrepVerif.Spec.Align
 import AstGrepVerif.Generated.Tables
 import AstGrepVerif.Props.C20
